@@ -35,7 +35,7 @@ env.import_adaptix()
 
 from hypothesis import strategies as st  # noqa: E402
 
-from adaptix import DebugTrail, Retort  # noqa: E402
+from adaptix import DebugTrail, ProviderNotFoundError, Retort  # noqa: E402
 from adaptix.load_error import LoadError  # noqa: E402
 
 PROP = "C16"
@@ -290,7 +290,7 @@ class Hier:
         self.built = built
         self.kind = case["kind"]
         self.classes = case["classes"]
-        self._index = {id(c): i for i, c in enumerate(built["cls"])}
+        self._index = {id(c): i for i, c in enumerate(built["cls"])} if built else {}
 
     def params(self, i):
         return class_params(self.case, i)
@@ -349,6 +349,28 @@ class Hier:
                     raise Skip("skipped_inconsistent_diamond_bindings")
                 res[k] = e
         return res
+
+    def behind_bare_base(self, i):
+        """Classes below i that are reached through a bare generic base edge (their variables get implicit
+        parameters although the queried class is parametrised)."""
+        out = set()
+        for b in self.classes[i]["bases"]:
+            j = b["cls"]
+            if b["args"] is None and self.params(j):
+                out |= {j, *self.ancestors(j)}
+            out |= self.behind_bare_base(j)
+        return out
+
+    def touches_bare_base(self, t):
+        for n in walk(t):
+            if n[0] in ("gen", "genbare"):
+                fields, defs, _ = self.expected_fields(n[1], None if n[0] == "genbare" and self.params(n[1])
+                                                       else (n[2] if n[0] == "gen" else []))
+                tainted = self.behind_bare_base(n[1])
+                if any(defs[f] in tainted for f in fields) or any(self.touches_bare_base(ft)
+                                                                  for ft in fields.values()):
+                    return True
+        return False
 
     def expected_fields(self, i, args):
         """name -> closed expected type for class i parametrised with closed ``args`` (None = bare)."""
@@ -451,7 +473,8 @@ def conforms(h: Hier, d, t):  # noqa: PLR0911, C901
         return type(d) is list and len(d) == len(t[1]) and all(conforms(h, x, tt) for x, tt in zip(d, t[1]))
     if tag in ("leaf", "gen", "genbare"):
         fields = h.model_fields(t)
-        return type(d) is dict and set(d) == set(fields) and all(conforms(h, d[n], ft) for n, ft in fields.items())
+        # unknown keys are skipped by default (docs: extra_in=ExtraSkip), so only the model's own keys matter
+        return type(d) is dict and set(fields) <= set(d) and all(conforms(h, d[n], ft) for n, ft in fields.items())
     raise ValueError(t)
 
 
@@ -581,9 +604,20 @@ def known_tags(h: Hier, case, exp):
     """Tags of the (so far) known defect classes a case falls into -- part of the violation signature, so that
     known-finding matchers stay narrow."""
     tags = set()
-    if any(b["args"] is None and h.params(b["cls"]) for c in case["classes"] for b in c["bases"]):
-        tags.add("bare_generic_base")
-    for j, n in uses(h, case, exp):
+    used = uses(h, case, exp)
+    relevant = set()
+    for j, _ in used:
+        relevant |= {j, *h.ancestors(j)}
+    for i in relevant:
+        for b in h.classes[i]["bases"]:
+            bp = h.params(b["cls"])
+            if b["args"] is None and bp:
+                tags.add("bare_generic_base")
+                if bp == [TVT]:
+                    tags.add("bare_only_tvt")
+            if b["args"] == [] and bp == [TVT]:
+                tags.add("empty_tvt_args")
+    for j, n in used:
         params = h.params(j)
         if not params:
             continue
@@ -745,21 +779,38 @@ def _check_built(ctx, case, built):  # noqa: C901, PLR0912, PLR0915
                      "expected": {n: repr(t) for n, t in exp.items()}, "labels": labels},
              labels=labels)
 
-    def viol(vkind, discr, detail):
-        ctx.violation(vkind, (kind, tagstr, *discr), case,
+    tainted = h.behind_bare_base(qi)
+
+    def origin(n):
+        """Does the field's expected type come through a bare generic base (known defect class)?"""
+        if n is None:
+            return "no_trail"
+        if n not in exp:
+            return "unknown_field"
+        return "via_bare_base" if (defs[n] in tainted or h.touches_bare_base(exp[n])) else "regular"
+
+    def viol(vkind, discr, detail, field="-"):
+        org = "-" if field == "-" else origin(field)
+        ctx.violation(vkind, (kind, tagstr, org, *discr), case,
                       f"{detail}\nquery={tp!r}\nexpected field types={exp!r}\n--- generated source ---\n"
                       + built["src"][-1200:])
 
     retort = Retort(debug_trail=DEBUG[case["debug"]], strict_coercion=True)
     loader = dumper = None
-    try:
-        loader = retort.get_loader(tp)
-    except Exception as e:  # noqa: BLE001 -- *any* failure to create a loader for a supported model is a finding
-        viol("loader_creation_failed", (type(e).__name__, exc_site(e)), describe(e))
-    try:
-        dumper = retort.get_dumper(tp)
-    except Exception as e:  # noqa: BLE001
-        viol("dumper_creation_failed", (type(e).__name__, exc_site(e)), describe(e))
+    for what in ("loader", "dumper"):
+        try:
+            if what == "loader":
+                loader = retort.get_loader(tp)
+            else:
+                dumper = retort.get_dumper(tp)
+        except ProviderNotFoundError as e:
+            if unspec_fields:
+                # some field type is not fixed by the docs, so nothing says it must be loadable at all
+                ctx.count("unspecified_creation_refused_with_unspecified_field")
+            else:
+                viol("creation_failed", (what, type(e).__name__, exc_site(e)), describe(e))
+        except Exception as e:  # noqa: BLE001 -- a foreign exception out of get_loader/get_dumper is never legitimate
+            viol("creation_failed", (what, type(e).__name__, exc_site(e)), describe(e))
 
     spec_fields = [n for n in exp if n not in unspec_fields]
     if unspec_fields:
@@ -767,6 +818,7 @@ def _check_built(ctx, case, built):  # noqa: C901, PLR0912, PLR0915
 
     # ---------------------------------------------------------------- conforming data: load, compare, dump
     valid = None
+    load_ok = loader is not None
     for v in case["variants"]:
         data = {}
         for k, (n, t) in enumerate(exp.items()):
@@ -789,14 +841,17 @@ def _check_built(ctx, case, built):  # noqa: C901, PLR0912, PLR0915
                 if unspec_fields and case["debug"] and trails and all(tr[:1] and tr[0] in unspec_fields
                                                                       for tr in trails):
                     ctx.count("unspecified_rejection_at_unspecified_field")
+                    load_ok = False     # no baseline for the single-field probes
                 elif unspec_fields and not case["debug"]:
                     ctx.count("unspecified_rejection_at_unspecified_field")
+                    load_ok = False
                 else:
                     first = next(iter(leaves(e)))
                     viol("conforming_data_rejected",
                          (type(first[1]).__name__, "root" if not first[0] else "field"),
-                         f"data={data!r}\n{describe(e)}\nleaves={[(tr, describe(x)) for tr, x in leaves(e)][:4]}")
-                    return
+                         f"data={data!r}\n{describe(e)}\nleaves={[(tr, describe(x)) for tr, x in leaves(e)][:4]}",
+                         field=first[0][0] if first[0] else None)
+                    return      # one root cause per case
             except Exception as e:  # noqa: BLE001
                 viol("load_crashed", (type(e).__name__, exc_site(e)), f"data={data!r}\n{describe(e)}")
                 return
@@ -806,11 +861,14 @@ def _check_built(ctx, case, built):  # noqa: C901, PLR0912, PLR0915
                     fv = get_field(kind, loaded, n)
                 except (AttributeError, KeyError, TypeError):
                     viol("loaded_object_lacks_field", (), f"data={data!r} loaded={loaded!r} field={n}")
-                    return
+                    load_ok = False
+                    break
                 r = value_matches(h, fv, exp[n], data[n])
                 if r:
-                    viol("loaded_value_differs", (exp[n][0],), f"field {n}: {r}\ndata={data!r}\nloaded={loaded!r}")
-                    return
+                    viol("loaded_value_differs", (exp[n][0],), f"field {n}: {r}\ndata={data!r}\nloaded={loaded!r}",
+                         field=n)
+                    load_ok = False
+                    break
         if dumper is not None and not unspec_fields:
             objs = []
             if loaded is not None:
@@ -821,13 +879,15 @@ def _check_built(ctx, case, built):  # noqa: C901, PLR0912, PLR0915
                 try:
                     out = dumper(obj)
                 except Exception as e:  # noqa: BLE001
-                    viol("dump_crashed", (type(e).__name__, exc_site(e)), f"{what} object={obj!r}\n{describe(e)}")
-                    return
+                    viol("dump_wrong", (f"crashed:{type(e).__name__}:{exc_site(e)}",),
+                         f"{what} object={obj!r}\n{describe(e)}")
+                    break
                 if not same_data(out, data):
-                    viol("dump_differs", (what,), f"object={obj!r}\ndumped={out!r}\nexpected={data!r}")
-                    return
-    if loader is None or valid is None:
-        return
+                    viol("dump_wrong", (f"differs:{type(out).__name__}",),
+                         f"{what} object={obj!r}\ndumped={out!r}\nexpected={data!r}")
+                    break
+    if not load_ok or valid is None:
+        return      # one root cause per case: the single-field probes below presuppose a working loader
 
     # ---------------------------------------------------------------- data fitting only another substitution
     pool = [["int"], ["str"], ["bool"], ["none"], ["list", ["int"]], ["leaf"], ["list", ["str"]], ["list", ["leaf"]]]
@@ -879,7 +939,7 @@ def _check_built(ctx, case, built):  # noqa: C901, PLR0912, PLR0915
             except LoadError as e:
                 if fits:
                     viol("conforming_data_rejected", (type(e).__name__, "cross", role),
-                         f"field {n} expected {e_t!r}; datum {bad!r} conforms\n{describe(e)}")
+                         f"field {n} expected {e_t!r}; datum {bad!r} conforms\n{describe(e)}", field=n)
                     return
                 if case["debug"]:
                     trails = [tr for tr, _ in leaves(e)]
@@ -887,7 +947,7 @@ def _check_built(ctx, case, built):  # noqa: C901, PLR0912, PLR0915
                         trails = [tr for tr in trails if not (tr[:1] and tr[0] in unspec_fields)]
                     if not trails or any(tr[:1] != (n,) for tr in trails):
                         viol("wrong_error_trail", (role,),
-                             f"field {n} expected {e_t!r}; datum {bad!r}; trails={trails!r}\n{describe(e)}")
+                             f"field {n} expected {e_t!r}; datum {bad!r}; trails={trails!r}\n{describe(e)}", field=n)
                         return
                 continue
             except Exception as e:  # noqa: BLE001
@@ -896,12 +956,39 @@ def _check_built(ctx, case, built):  # noqa: C901, PLR0912, PLR0915
             if not fits:
                 viol("nonconforming_data_accepted", (role, why),
                      f"field {n} (defined in class {d}) expected {e_t!r}; datum {bad!r} built for {alt_t!r} "
-                     f"was accepted\nprobe={probe!r}")
+                     f"was accepted\nprobe={probe!r}", field=n)
                 return
 
 
 # =================================================================================== strategies
-def st_closed(depth=1, gen_targets=()):
+_RANGES = {}
+
+
+def _range(n):
+    r = _RANGES.get(n)
+    if r is None:
+        r = _RANGES[n] = st.sampled_from(range(n))
+    return r
+
+
+_R12 = _range(12)
+
+
+def chance(draw, num, den):
+    # "interesting" outcome first is not needed here: the value is compared, not used
+    return draw(_range(den)) >= den - num
+
+
+_CLOSED = {}
+
+
+def st_closed(depth=1):
+    if depth not in _CLOSED:
+        _CLOSED[depth] = _st_closed(depth)
+    return _CLOSED[depth]
+
+
+def _st_closed(depth):
     base = st.sampled_from([["int"], ["str"], ["bool"], ["none"], ["leaf"], ["list", ["int"]], ["leaf"], ["int"],
                             ["str"]])
     if depth <= 0:
@@ -925,11 +1012,11 @@ def st_args_for(draw, case_ctx, j, own_params, closed: bool, allow_known: bool):
     for p in params:
         k = tv_kind(p)
         if k == "tvt":
-            n = draw(st.integers(0, 2))
+            n = draw(st.sampled_from([0, 1, 1, 2, 2]))
             items = []
             spliced = False
             for _ in range(n):
-                if not closed and TVT in own_params and not spliced and draw(st.booleans()):
+                if not closed and TVT in own_params and not spliced and chance(draw, 2, 3):
                     items.append(["unpack", TVT])
                     spliced = True
                 else:
@@ -959,12 +1046,12 @@ def st_open(draw, case_ctx, own_params, depth, upto, closed, allow_known):
     """An annotation over ``own_params`` (closed=True: no type variables).  ``upto``: generic references may
     only point to classes with a smaller index."""
     plain_like = [p for p in own_params if p != TVT]
-    choice = draw(st.integers(0, 19))
+    choice = draw(_range(20))
     if not closed and plain_like and choice < 9:
         return ["tv", draw(st.sampled_from(plain_like))]
     if not closed and plain_like and choice < 14 and depth > 0:
         inner = ["tv", draw(st.sampled_from(plain_like))]
-        w = draw(st.integers(0, 3))
+        w = draw(_range(4))
         if w == 0:
             return ["list", inner]
         if w == 1:
@@ -976,12 +1063,12 @@ def st_open(draw, case_ctx, own_params, depth, upto, closed, allow_known):
     if not closed and TVT in own_params and choice < 16 and depth > 0:
         items = [["unpack", TVT]]
         if draw(st.booleans()):
-            items.insert(draw(st.integers(0, 1)), draw(st_closed(0)))
+            items.insert(draw(st.sampled_from([0, 1])), draw(st_closed(0)))
         return ["tup", items]
     targets = [j for j in range(upto) if _gen_ref_allowed(case_ctx, j, allow_known)]
     if targets and choice >= 17 and depth > 0:
         j = draw(st.sampled_from(targets))
-        if case_ctx["params"][j] and draw(st.integers(0, 4)) == 0 and _bare_ref_allowed(case_ctx, j, allow_known):
+        if case_ctx["params"][j] and chance(draw, 1, 5) and _bare_ref_allowed(case_ctx, j, allow_known):
             return ["genbare", j]
         sub_closed = closed or case_ctx["kind"] == "pydantic"
         return ["gen", j, draw(st_args_for(case_ctx, j, own_params, sub_closed, allow_known))] \
@@ -1013,63 +1100,99 @@ def _bare_ref_allowed(case_ctx, j, allow_known):
     return not (case_ctx["kind"] == "namedtuple" and len(params) == 1)
 
 
+def _symbolically_consistent(case_ctx, classes, params, bases):
+    tmp = {"kind": case_ctx["kind"], "bound": case_ctx["bound"], "constr": case_ctx["constr"],
+           "classes": [*classes, {"params": params, "bases": bases, "fields": [], "explicit": True}]}
+    ident = {p: ([["unpack", TVT]] if p == TVT else ["tv", p]) for p in params}
+    try:
+        Hier(tmp, None).envs(len(classes), ident)
+    except Skip:
+        return False
+    return True
+
+
 FIELD_NAMES = ["a", "b", "c", "d", "e"]
 
 
 @st.composite
 def st_case(draw):  # noqa: C901, PLR0912, PLR0915
-    kind = draw(st.sampled_from(["dataclass", "dataclass", "attrs", "attrs", "typeddict", "typeddict",
+    # Hypothesis fills the tail of a long draw sequence with its simplest choice, so the scalar options are drawn
+    # FIRST (otherwise debug mode 0 / spelling "typing" / bare queries are heavily over-represented).
+    kind = draw(st.sampled_from(["dataclass", "attrs", "typeddict", "dataclass", "attrs", "typeddict",
                                  "namedtuple", "pydantic"]))
-    allow_known = draw(st.integers(0, 15)) == 0
+    debug = draw(st.sampled_from([2, 1, 0]))
+    spelling = draw(st.sampled_from(["builtin", "typing"]))
+    variants = [draw(_R12), draw(_R12)]
+    slots = draw(st.booleans())
+    bare_query = chance(draw, 1, 5)
+    deep_query = chance(draw, 5, 6)
+    allow_known = chance(draw, 1, 16)
+    diamond_mode = kind in ("dataclass", "attrs", "typeddict") and chance(draw, 1, 5)
     bound = draw(st.sampled_from([["int"], ["str"], ["leaf"], ["list", ["int"]], ["bool"]]))
     constr = draw(st.sampled_from([[["str"], ["bool"]], [["int"], ["none"]], [["int"], ["str"]],
                                    [["bool"], ["none"], ["str"]]]))
-    use_tvt = kind != "pydantic" and draw(st.integers(0, 3)) == 0
-    use_limited = draw(st.integers(0, 2)) == 0
+    use_tvt = kind != "pydantic" and chance(draw, 3, 10)
+    use_limited = chance(draw, 1, 2)
     tv_pool = list(PLAIN_TV) + (["B0", "K0"] if use_limited else []) + ([TVT] if use_tvt else [])
-    ncls = draw(st.integers(1, 3 if kind == "pydantic" else 5))
+    if diamond_mode:
+        ncls = draw(st.sampled_from([4, 4, 5]))
+    else:
+        ncls = draw(st.sampled_from([2, 2, 1, 3] if kind == "pydantic" else [3, 2, 4, 5, 3, 4, 1, 5]))
     case_ctx = {"kind": kind, "params": [], "bound": bound, "constr": constr}
     classes = []
     anc = []           # ancestors (transitive) per class
     names_of = []      # all field names visible in a class (own + inherited)
     for i in range(ncls):
         # ---- parameters (a permutation of a subset of the pool; at most one TypeVarTuple by construction)
-        nparams = draw(st.sampled_from([0, 1, 1, 2, 2, 2, 3]))
-        params = draw(st.lists(st.sampled_from(tv_pool), min_size=min(nparams, len(tv_pool)),
-                               max_size=min(nparams, len(tv_pool)), unique=True))
+        nparams = draw(st.sampled_from([2, 1, 2, 3, 1, 2, 0]))
+        if diamond_mode and i == 0 and nparams == 0:
+            nparams = 1
+        nparams = min(nparams, len(tv_pool))
+        params = draw(st.lists(st.sampled_from(tv_pool), min_size=nparams, max_size=nparams, unique=True))
+        if use_tvt and TVT not in params and params and chance(draw, 1, 2):
+            params[draw(st.sampled_from(range(len(params))))] = TVT     # keep variadic classes well represented
+        if diamond_mode and i == 2:
+            params = list(classes[1]["params"])      # the two arms of the diamond have the same parameters
         if kind in ("namedtuple", "pydantic") and not allow_known:
-            while len([p for p in params]) == 1 or (TVT in params):
+            while len(params) == 1 or (TVT in params):
                 params = [p for p in params if p != TVT]
                 for cand in PLAIN_TV:
                     if cand not in params and len(params) < 2:
                         params.append(cand)
         # ---- bases
         bases = []
-        if i > 0 and kind != "pydantic":
-            if kind == "namedtuple":
-                nb = 1
+        if diamond_mode and i == 2:
+            bases = [{"cls": b["cls"], "args": b["args"]} for b in classes[1]["bases"]]
+        elif i > 0 and kind != "pydantic":
+            if diamond_mode and i == 1:
+                chosen = [0]
+            elif diamond_mode and i == 3:
+                chosen = [1, 2] if draw(st.booleans()) else [2, 1]
             else:
-                nb = draw(st.sampled_from([0, 1, 1, 1, 1, 2, 2, 3]))
-            cands = list(range(i))
-            if kind == "namedtuple":
-                cands = [i - 1] if draw(st.booleans()) else cands
-            chosen = draw(st.lists(st.sampled_from(cands), min_size=min(nb, len(cands)),
-                                   max_size=min(nb, len(cands)), unique=True)) if nb else []
-            # never list an ancestor together with its descendant (redundant, mostly MRO errors)
-            chosen = [j for j in chosen if not any(j in anc[k] for k in chosen if k != j)]
+                nb = 1 if kind == "namedtuple" else draw(st.sampled_from([1, 2, 1, 2, 1, 0, 3, 2]))
+                cands = list(range(i))
+                if kind == "namedtuple":
+                    cands = [i - 1] if draw(st.booleans()) else cands
+                nb = min(nb, len(cands))
+                chosen = draw(st.lists(st.sampled_from(cands), min_size=nb, max_size=nb, unique=True)) if nb else []
+                # never list an ancestor together with its descendant (redundant, mostly MRO errors)
+                chosen = [j for j in chosen if not any(j in anc[k] for k in chosen if k != j)]
             for j in chosen:
                 pj = case_ctx["params"][j]
-                if pj and allow_known and draw(st.integers(0, 2)) == 0:
+                if pj and allow_known and chance(draw, 1, 3):
                     bases.append({"cls": j, "args": None})
                     continue
                 args = draw(st_args_for(case_ctx, j, params, False, allow_known)) if pj else None
-                if bases and pj and draw(st.integers(0, 2)) > 0:
-                    # bias towards consistent diamonds: reuse the arguments given to a previous base of equal arity
+                if bases and pj and (chance(draw, 2, 3) or (diamond_mode and i == 3)):
+                    # bias towards consistent diamonds: reuse the arguments given to a previous base of equal
+                    # parameters
                     for pb in bases:
                         if pb["args"] is not None and case_ctx["params"][pb["cls"]] == pj:
                             args = pb["args"]
                             break
                 bases.append({"cls": j, "args": args})
+                if len(bases) > 1 and not _symbolically_consistent(case_ctx, classes, params, bases):
+                    bases.pop()      # this base would bind a shared ancestor differently: not a valid diamond
         my_anc = set()
         for b in bases:
             my_anc |= {b["cls"]} | anc[b["cls"]]
@@ -1084,20 +1207,22 @@ def st_case(draw):  # noqa: C901, PLR0912, PLR0915
                 for tv in free_tvars(a):
                     if tv not in collected:
                         collected.append(tv)
-        # parameters a class does not mention in its bases need Generic[...]
         explicit = True
+        if not set(collected) <= set(params):
+            if diamond_mode and i == 2:
+                params = collected + [p for p in params if p not in collected]
+            else:
+                raise AssertionError("harness: base arguments use foreign variables")
         if bases and set(collected) == set(params) and params and draw(st.booleans()):
             explicit = False
             params = collected
-        elif bases and not set(collected) <= set(params):
-            raise AssertionError("harness: base arguments use foreign variables")
         case_ctx["params"].append(params)
         # ---- fields
         fields = []
         if kind == "namedtuple" and bases:
             nf = 0
         else:
-            nf = draw(st.sampled_from([0, 1, 1, 2, 2, 3])) if bases else draw(st.sampled_from([1, 1, 2, 2, 3]))
+            nf = draw(st.sampled_from([1, 2, 0, 1, 2, 3])) if bases else draw(st.sampled_from([2, 1, 2, 1, 3]))
         used = set()
         for k in range(nf):
             if kind in ("typeddict", "namedtuple", "pydantic"):
@@ -1106,10 +1231,9 @@ def st_case(draw):  # noqa: C901, PLR0912, PLR0915
                 name = draw(st.sampled_from(FIELD_NAMES))
                 if name in used:
                     continue
-                if name in inherited and draw(st.integers(0, 2)) == 0:
+                if name in inherited and chance(draw, 1, 3):
                     name = f"f{i}{k}"
             used.add(name)
-            # make sure parameters are actually used: prefer the k-th parameter for the k-th field
             ann = draw(st_open(case_ctx, params, 1, i, False, allow_known))
             fields.append({"name": name, "ann": ann})
         classes.append({"params": params, "bases": bases, "fields": fields, "explicit": explicit})
@@ -1124,17 +1248,19 @@ def st_case(draw):  # noqa: C901, PLR0912, PLR0915
         eligible = [j for j in eligible if ok(j)] or [0]
     with_fields = [j for j in eligible if names_of[j]] or eligible
     deep = [j for j in with_fields if anc[j]] or with_fields
-    qi = draw(st.sampled_from(deep if draw(st.integers(0, 4)) else with_fields))
+    if diamond_mode and 3 in deep and chance(draw, 3, 4):
+        qi = draw(st.sampled_from([j for j in deep if j >= 3]))
+    else:
+        qi = draw(st.sampled_from(list(reversed(deep if deep_query else with_fields))))
     qparams = classes[qi]["params"]
-    if qparams and draw(st.integers(0, 3)) == 0 and (allow_known or qparams != [TVT]):
+    if qparams and bare_query and (allow_known or qparams != [TVT]):
         qargs = None
     else:
         qargs = draw(st_args_for(case_ctx, qi, [], True, allow_known)) if qparams else None
     return {
-        "kind": kind, "spelling": draw(st.sampled_from(["typing", "builtin"])), "bound": bound, "constr": constr,
-        "classes": classes, "query": {"cls": qi, "args": qargs}, "debug": draw(st.integers(0, 2)),
-        "variants": [draw(st.integers(0, 11)), draw(st.integers(0, 11))], "slots": draw(st.booleans()),
-        "steered": not allow_known,
+        "kind": kind, "spelling": spelling, "bound": bound, "constr": constr,
+        "classes": classes, "query": {"cls": qi, "args": qargs}, "debug": debug,
+        "variants": variants, "slots": slots, "steered": not allow_known,
     }
 
 
@@ -1183,7 +1309,7 @@ def explore(ctx: runner.Ctx):
     if ctx.shard == 0:
         for case in fixed_cases():
             check_case(ctx, case)
-    ctx.given(st_case(), lambda case: check_case(ctx, case), ctx.budget(2400, 110000))
+    ctx.given(st_case(), lambda case: check_case(ctx, case), ctx.budget(6000, 150000))
 
 
 RULE = ("cases = generated (hierarchy of <= 5 generic classes of one model kind, query parametrisation or bare, "
